@@ -672,6 +672,24 @@ func (e *Engine) ghostCall(env *Env, x ECall) (Val, bool) {
 			}
 			return VBool{app(e.implFn(t), iv.Typ)}, true
 		}
+	case "typeid": // typeid("pkg.T"): the type tag interface values of dynamic type T carry (compare with typeof(v))
+		if lit, ok := x.Args[0].(EStr); ok {
+			t := e.lookupType(lit.V)
+			if t == nil {
+				sfail("typeid: unknown type %s", lit.V)
+			}
+			return VInt{fmt.Sprint(e.typeID(t))}, true
+		}
+	case "unbox": // unbox(v, "pkg.T"): the T held by interface value v (meaningful where typeof(v) == typeid("pkg.T"))
+		iv, ok := env.eval(x.Args[0]).(VIface)
+		lit, ok2 := x.Args[1].(EStr)
+		if ok && ok2 {
+			t := e.lookupType(lit.V)
+			if t == nil {
+				sfail("unbox: unknown type %s", lit.V)
+			}
+			return c.unbox(env.st, iv, t, "true"), true
+		}
 	case "buflen": // ghost length of a *bytes.Buffer
 		return VInt{sel(c.heapGet(env.st, "G$buf.len", arrSort(sInt)), env.evalInt(x.Args[0]))}, true
 	case "maphas", "mapval": // maphas(m, k): k is a key of map m; mapval(m, k): the value stored under k
